@@ -175,6 +175,12 @@ func (s *Sim) Park(key string, r Readier) {
 	raceOff()
 	w := &waiter{key: key, r: r, grant: make(chan struct{})}
 	s.mu.Lock()
+	if s.ended {
+		// no scheduler is running (between phases or after the run): do not block
+		s.mu.Unlock()
+		raceOn()
+		return
+	}
 	s.arrivals++
 	w.seq = s.arrivals
 	s.waiters = append(s.waiters, w)
@@ -220,6 +226,7 @@ func (s *Sim) Go(name string, fn func()) *Task {
 	tk := &Task{Name: name, sim: s}
 	raceOff()
 	s.mu.Lock()
+	s.ended = false // starting a task after a finished Run opens the next phase
 	s.tasks = append(s.tasks, tk)
 	s.mu.Unlock()
 	raceOn()
